@@ -1,5 +1,6 @@
 """Implementation side of the correspondence: build real Node trees from the
 JSON tree terms of the line protocol, run the real code, canonicalise."""
+import os, signal
 import json, logging
 logging.disable(logging.CRITICAL)
 from metapype.model.node import Node
@@ -63,9 +64,36 @@ def exc_family(e):
     return "crash:" + type(e).__name__
 
 
+class NonTermination(Exception):
+    """raised by the watchdog inside an implementation call that runs past the limit (a Python loop that does not end)"""
+
+
+CALL_LIMIT_S = float(os.environ.get("VERIF_CALL_LIMIT_S", "30"))
+
+
+HANGS = [0]
+
+
+def _on_alarm(sig, frame):
+    HANGS[0] += 1
+    raise NonTermination("no result within the call limit")
+
+
+def limited(fn, *args, **kw):
+    """fn(*args) under a wall-clock limit; every generated input is small, a call normally takes milliseconds.
+    Once calls have been seen to hang the limit shrinks, so that a looping implementation does not stall the whole check."""
+    old = signal.signal(signal.SIGALRM, _on_alarm)
+    signal.setitimer(signal.ITIMER_REAL, CALL_LIMIT_S if HANGS[0] == 0 else 3.0 if HANGS[0] < 3 else 0.5)
+    try:
+        return fn(*args, **kw)
+    finally:
+        signal.setitimer(signal.ITIMER_REAL, 0)
+        signal.signal(signal.SIGALRM, old)
+
+
 def run_ff(fn, *args):
     try:
-        fn(*args)
+        limited(fn, *args)
         return "ok"
     except BaseException as e:   # noqa
         if isinstance(e, (KeyboardInterrupt, SystemExit)):
@@ -77,7 +105,7 @@ def run_collect(fn, *args):
     """returns (codes list | None, crash | None, raw errs)"""
     errs = []
     try:
-        fn(*args, errs)
+        limited(fn, *args, errs)
     except BaseException as e:   # noqa
         if isinstance(e, (KeyboardInterrupt, SystemExit)):
             raise
